@@ -170,6 +170,38 @@ def tickets(pid, ma, mb, site, step, seed):
                    group="tickets/%s~%s" % (ma, mb), role=dict(kind=mb), unwind=64, weight=2)
 
 
+def lone_step(pid, ma, mb, profile):
+    """a later step with ONE active branch runs in place in the caller under every name (a thread-spawning macro spawns only for a step with more
+    than one active branch): its callback may borrow and update a local of the caller - results AND the local afterwards agree"""
+    is_async, is_try, _ = KINDS[ma]
+    nb = len(profile)
+    lone = max(range(nb), key=lambda b_: profile[b_])
+    w = (lambda x: "mk(true, %s)" % x) if is_try else (lambda x: x)
+    sop = "~|>" if is_try else "~->"
+    brs = []
+    for b_ in range(nb):
+        parts = [w("p%d" % b_)]
+        for s_ in range(1, profile[b_]):
+            if b_ == lone and s_ >= sorted(profile)[-2]:
+                parts.append("%s |v: u8| { acc = acc.wrapping_mul(3).wrapping_add(v); v ^ q%d }" % (sop, s_))
+            else:
+                parts.append("%s move |v: u8| v ^ q%d" % (sop, s_))
+        brs.append(" ".join(parts))
+    ta = "%s! { %s }" % (ma, ", ".join(brs))
+    tb = ta.replace(ma + "!", mb + "!", 1)
+    msg = lambda t_: "\"C07[%s]: %s\"" % (pid, t_)
+    L = ["names_off();", "let %s;" % "; let ".join(["p%d = u()" % b_ for b_ in range(nb)] + ["q%d = u()" % s_ for s_ in range(1, max(profile))]), "let a0 = u();", "let mut acc = a0;"]
+    L.append("let ra = %s;" % ta)
+    L.append("let acc_a = acc;")
+    L.append("reset(); names_off(); acc = a0;")
+    L.append("let rb = %s;" % tb)
+    L.append("vassert!(ra == rb, %s);" % msg("%s! and %s! compute the same values" % (ma, mb)))
+    L.append("vassert!(acc_a == acc, %s);" % msg("a step with a single active branch runs in the caller's scope under both names: the caller's local it updates ends up the same"))
+    L.append("vcover!(acc != a0, \"the lone step updated the caller's local\");")
+    return Program(pid, ta + "\n  vs\n" + tb, "    " + "\n    ".join(L), desc=dict(pair=[ma, mb], profile=list(profile), lone_branch=lone, callback="borrows a local of the caller mutably (not `move`)"),
+                   group="lone-step/%s~%s" % (ma, mb), role=dict(kind=mb), unwind=64, weight=2)
+
+
 def ticket_programs(tier, seed, start):
     ps = []
     i = start
@@ -191,6 +223,13 @@ def programs(tier, seed):
     for ma, mb in PAIRS_SYNC + PAIRS_ASYNC + [("join", "spawn"), ("try_join", "try_spawn"), ("join_async", "async_spawn"), ("try_join_async", "try_async_spawn")]:
         i += 1
         ps.append(send_only("p%04d" % i, ma, mb))
+    i = 950
+    for k, (ma, mb) in enumerate(PAIRS_SYNC + [("join", "spawn"), ("try_join", "try_spawn")]):
+        for prof in ((1, 2), (2, 1, 3), (3, 1)):
+            i += 1
+            if tier == "quick" and (i + seed) % 2:
+                continue
+            ps.append(lone_step("p%04d" % i, ma, mb, prof))
     return ps
 
 
